@@ -80,7 +80,7 @@ def compile_one(src, keep_text=True, opts=None):
     from vf.gen import render
 
     try:
-        text = render.compile_source(src, "E", reserved=(opts or {}).get("reserved"))
+        text = render.compile_source(src, "E", reserved=(opts or {}).get("reserved"), fname=(opts or {}).get("fname"))
     except render.Rejected as e:
         return {"st": "rejected", "exc": e.exc_type, "msg": e.message[:300], "site": [e.exc_type, _kind(e.message)]}
     o = {"st": "ok", "sha": hashlib.sha256(text.encode()).hexdigest()}
